@@ -126,6 +126,30 @@ static Result run_interp(const json &c) {
     r.cls("excluded-known:" + pkey);
     return r;
   }
+  // history: the same spline object has interpolated other data before (same / other number of points, same / other
+  // boundary condition); the result must be that of a fresh object
+  int prior = c.value("prior", 0);
+  if (prior) {
+    std::vector<double> xp = x, yp(y.size());
+    for (size_t i = 0; i < yp.size(); ++i) yp[i] = 0.37 * double((i * 7 + 3) % 11) - 1.0 + 0.25 * y[y.size() - 1 - i];
+    if (prior == 3 && n > min_points(type) + 1) {  // other number of points
+      xp.pop_back();
+      yp.pop_back();
+    }
+    bool pper = periodic;
+    if (prior == 2 && type != "linear") pper = !periodic;  // other boundary condition
+    if (pper) yp.back() = yp.front();
+    if (all_finite(yp)) {
+      try {
+        sp->setBC(pper ? vt::Spline::splinePeriodic : vt::Spline::splineNormal);
+        sp->Interpolate(to_eigen(xp), to_eigen(yp));
+        if (prior == 4) sp->Interpolate(to_eigen(xp), to_eigen(yp));
+      } catch (const std::exception &) {
+      }
+      sp->setBC(periodic ? vt::Spline::splinePeriodic : vt::Spline::splineNormal);
+      r.cls(fmt("prior-use:%d(%s->%s)", prior, pper ? "periodic" : "natural", periodic ? "periodic" : "natural"));
+    }
+  }
   sp->Interpolate(to_eigen(x), to_eigen(y));
   Model m = make_model(type, x, y, periodic);
   r.cls(type + "/" + bc);
@@ -232,6 +256,7 @@ static json gen_interp() {
   c["gridkind"] = gk;
   c["ykind"] = yk;
   c["ev"] = gen_eval(x);
+  if (rbool(35)) c["prior"] = ri(1, 4);
   return c;
 }
 
